@@ -53,7 +53,13 @@ type envT struct {
 	baseline map[btc.BIDX]*chain.BlockTreeNode
 	spend    []spendable // mature, unspent outputs in the start-up chain
 	nodePub  []byte
-	peerKey  []byte // the harness' "friend" key (listed in AuthPubkeys)
+	peerKey  []byte                 // the harness' "friend" key (listed in AuthPubkeys)
+	emptyDB  *qdb.DB                // the peers database of a fresh node
+	fullDB   *qdb.DB                // a second instance filled to the hard limit (built on first use, volatile)
+	fullVals map[qdb.KeyType][]byte // its synthetic records 0..peersLimit+2
+	fullKeys []qdb.KeyType
+	fullUsed bool          // fullDB was the live database since its last clean-up
+	touched  []qdb.KeyType // keys the running case may have written to it
 	peerPub  []byte
 }
 
@@ -279,8 +285,9 @@ func newEnv() *envT {
 
 	// --- main(): peers database opened directly (InitPeers would start DNS look-ups) ---------------
 	peersdb.Services = common.Services
-	peersdb.PeerDB, err = qdb.NewDB(common.GocoinHomeDir+"peers3", true)
+	e.emptyDB, err = qdb.NewDB(common.GocoinHomeDir+"peers3", true)
 	must(err)
+	peersdb.PeerDB = e.emptyDB
 
 	e.reset(false)
 	return e
@@ -288,7 +295,12 @@ func newEnv() *envT {
 
 // reset puts every piece of process-global state a handler can touch back to "node just started,
 // chain at the start-up tip, no peers, empty pools".
-func (e *envT) reset(syncing bool) {
+func (e *envT) reset(syncing bool) { e.resetWith(syncing, "") }
+
+// resetWith: peers selects the state of the peers database the case starts with: "" = empty (node just
+// installed), "full" = exactly at its hard limit (MaxPeersInDB+MaxPeersDeviation records, as after an
+// addr flood between two expiry runs), "below" = two records under it, "above" = three over it.
+func (e *envT) resetWith(syncing bool, peers string) {
 	ch := e.ch
 	// headers accepted during earlier cases: back to the start-up index.  (A fresh small map: the one
 	// NewChainExt makes is sized for 500 000 blocks and iterating it costs more than the whole case.)
@@ -333,13 +345,7 @@ func (e *envT) reset(syncing bool) {
 		<-txpool.GetMPInProgressTicket
 	}
 
-	var keys []qdb.KeyType
-	peersdb.Lock()
-	peersdb.PeerDB.Browse(func(k qdb.KeyType, v []byte) uint32 { keys = append(keys, k); return 0 })
-	for _, k := range keys {
-		peersdb.PeerDB.Del(k)
-	}
-	peersdb.Unlock()
+	e.resetPeers(peers)
 
 	common.CounterMutex.Lock()
 	common.Counter = make(map[string]uint64)
@@ -354,6 +360,120 @@ func (e *envT) reset(syncing bool) {
 	common.UnlockCfg()
 	common.SetMinFeePerKB(0)
 	common.BlockChainSynchronized.Store(!syncing)
+}
+
+const peersLimit = peersdb.MaxPeersInDB + peersdb.MaxPeersDeviation // ParseAddr takes no new record at or above it
+
+// knownPeerIP is the address of synthetic record i of the full peers database (11.x.y.z: routable).
+func knownPeerIP(i int) [4]byte { return [4]byte{11, byte(i >> 16), byte(i >> 8), byte(i)} }
+
+func knownPeerRecord(i int) *peersdb.PeerAddr {
+	p := peersdb.NewPeer(nil)
+	p.Time = genesisTime
+	p.Services = goodServices
+	p.Ip4 = knownPeerIP(i)
+	p.Port = 8333
+	return p
+}
+
+func (e *envT) buildFullDB() {
+	var db *qdb.DB
+	must(qdb.NewDBExt(&db, &qdb.NewDBOpts{Dir: common.GocoinHomeDir + "peers-full", LoadData: true, Volatile: true}))
+	e.fullDB = db
+	e.fullVals = make(map[qdb.KeyType][]byte, peersLimit+8)
+	for i := 0; i < peersLimit+3; i++ {
+		p := knownPeerRecord(i)
+		k, v := qdb.KeyType(p.UniqID()), p.Bytes()
+		e.fullKeys = append(e.fullKeys, k)
+		e.fullVals[k] = v
+		db.Put(k, v)
+	}
+	if len(e.fullVals) != peersLimit+3 {
+		panic("synthetic peer keys collide")
+	}
+}
+
+// restoreFull puts one key of the full database back to its synthetic content (or removes it).
+func (e *envT) restoreFull(k qdb.KeyType) {
+	want, ok := e.fullVals[k]
+	have := e.fullDB.Get(k)
+	switch {
+	case !ok && have != nil:
+		e.fullDB.Del(k)
+	case ok && have != nil && !bytes.Equal(want, have):
+		e.fullDB.Put(k, want)
+	}
+}
+
+// touchAddr notes the keys an addr payload can make ParseAddr write.
+func (e *envT) touchAddr(pl []byte) {
+	if !e.fullUsed {
+		return
+	}
+	for off := csLen(pl); off > 0 && off+30 <= len(pl); off += 30 {
+		e.touched = append(e.touched, qdb.KeyType(peersdb.NewPeer(pl[off:off+30]).UniqID()))
+	}
+}
+
+// resetPeers installs the peers database the case starts with and puts the one used before back to its
+// defined content (records added, banned or touched by the last case are removed / restored).
+func (e *envT) resetPeers(variant string) {
+	peersdb.Lock()
+	defer peersdb.Unlock()
+	var keys []qdb.KeyType
+	e.emptyDB.Browse(func(k qdb.KeyType, v []byte) uint32 { keys = append(keys, k); return 0 })
+	for _, k := range keys {
+		e.emptyDB.Del(k)
+	}
+	if e.fullUsed {
+		// what the last case can have written: the records of its addr messages and its own peers' records
+		for _, k := range e.touched {
+			e.restoreFull(k)
+		}
+		e.fullUsed = false
+	}
+	e.touched = e.touched[:0]
+	if variant == "" {
+		peersdb.PeerDB = e.emptyDB
+		return
+	}
+	if e.fullDB == nil {
+		e.buildFullDB()
+	}
+	want := peersLimit
+	switch variant {
+	case "below":
+		want = peersLimit - 2
+	case "above":
+		want = peersLimit + 3
+	}
+	for i := peersLimit - 2; i < peersLimit+3; i++ { // only the records around the limit differ between the variants
+		k := e.fullKeys[i]
+		have := e.fullDB.Get(k) != nil
+		if i < want && !have {
+			e.fullDB.Put(k, e.fullVals[k])
+		} else if i >= want && have {
+			e.fullDB.Del(k)
+		}
+	}
+	if e.fullDB.Count() != want {
+		// something else was written (e.g. a Run-mode session whose framing got out of step): full sweep
+		var all []qdb.KeyType
+		e.fullDB.Browse(func(k qdb.KeyType, v []byte) uint32 { all = append(all, k); return 0 })
+		for _, k := range all {
+			e.restoreFull(k)
+		}
+		for i := peersLimit - 2; i < peersLimit+3; i++ {
+			if k := e.fullKeys[i]; i >= want && e.fullDB.Get(k) != nil {
+				e.fullDB.Del(k)
+			}
+		}
+	}
+	if e.fullDB.Count() != want {
+		panic(fmt.Sprint("harness: peers database has ", e.fullDB.Count(), " records, wanted ", want))
+	}
+	peersdb.PeerDB = e.fullDB
+	e.fullUsed = true
 }
 
 // mempoolPristine: nothing was ever put into any of the pool's containers since InitMempool (which is
@@ -372,8 +492,11 @@ func (e *envT) close() {
 	if e == nil {
 		return
 	}
-	if peersdb.PeerDB != nil {
-		peersdb.PeerDB.Close()
+	if e.emptyDB != nil {
+		e.emptyDB.Close()
+	}
+	if e.fullDB != nil {
+		e.fullDB.Close()
 	}
 	e.ch.Close()
 	os.RemoveAll(e.home)
